@@ -702,6 +702,9 @@ func (f *c07File) Close() error {
 	vsched.Env("c07.file.close:"+f.name, f, false, nil)
 	f.Closes++
 	f.fs.log("Close %q", f.name)
+	if f.TErrs > 0 {
+		return errors.New("transfer abandoned") // what an upload back end reports when it is closed after a transfer error
+	}
 	return nil
 }
 
